@@ -9,13 +9,16 @@ mod chan;
 use chan::*;
 use util::*;
 use opcua::core::comms::chunker::Chunker;
-use opcua::core::comms::message_chunk::{MessageChunk, MessageIsFinalType};
+use opcua::core::comms::message_chunk::{MessageChunk, MessageChunkType, MessageIsFinalType};
 use opcua::crypto::pkey::KeySize;
 
 pub struct Case {
     policy: usize, mode: usize, mty: usize, max_chunk: usize,
     chan_id: u32, token_id: u32, seq0: u32, req_id: u32,
     sid: usize, rid: usize, fill: Fill, exact: bool,
+    /// Some((k, d)): the filler length is chosen at run time so that the encoded message is exactly
+    /// k full chunk bodies plus d bytes (the body room is asked from the real code)
+    boundary: Option<(usize, i64)>,
 }
 pub struct P;
 
@@ -23,7 +26,7 @@ fn fin_code(f: MessageIsFinalType) -> i128 { match f { MessageIsFinalType::Inter
 
 fn mk(policy: usize, mode: usize, mty: usize, max_chunk: usize, len: usize, exact: bool) -> Case {
     Case { policy, mode, mty, max_chunk, chan_id: 5, token_id: 9, seq0: 1, req_id: 1000, sid: 0, rid: 1,
-           fill: Fill { len, a: 3, b: 7, m: if mty == 2 { 95 } else { 256 }, lo: if mty == 2 { 32 } else { 0 } }, exact }
+           fill: Fill { len, a: 3, b: 7, m: if mty == 2 { 95 } else { 256 }, lo: if mty == 2 { 32 } else { 0 } }, exact, boundary: None }
 }
 
 /// identities whose key length the policy allows (quick: 2048 only)
@@ -66,6 +69,19 @@ impl Property for P {
         v.push(mk(5, 2, 1, 9001, 7000, false));
         // empty filler; exactly one full chunk; one byte more
         v.push(mk(0, 0, 0, 8196, 0, true));
+        // encoded message = exactly k full chunk bodies (and one byte either side): the last chunk is
+        // completely full and must still be the Final one
+        for (policy, mode) in [(0usize, 0usize), (3, 1), (3, 2), (4, 2)] {
+            for max_chunk in [8196usize, 8207] {
+                for k in 1..=3usize {
+                    for d in [-1i64, 0, 1] {
+                        let mut c = mk(policy, mode, 0, max_chunk, 0, false);
+                        c.boundary = Some((k, d));
+                        v.push(c);
+                    }
+                }
+            }
+        }
         v
     }
     fn gen(r: &mut Rng) -> Case {
@@ -88,15 +104,27 @@ impl Property for P {
         Case { policy, mode, mty, max_chunk, chan_id: r.next() as u32, token_id: r.next() as u32,
                // near the top of the u32 range, but the sequence numbers of the message stay below 2^32 (wrap-around is C12's subject)
                seq0: if r.chance(1, 10) { u32::MAX - (len as u32 + 64) - r.below(6) as u32 } else { 1 + r.below(100000) as u32 }, req_id: r.next() as u32,
-               sid, rid, fill: Fill { len, a: r.below(256) as u32, b: r.below(256) as u32, m, lo }, exact }
+               sid, rid, fill: Fill { len, a: r.below(256) as u32, b: r.below(256) as u32, m, lo }, exact,
+               boundary: if max_chunk > 0 && r.chance(1, 5) { Some((1 + r.below(3) as usize, r.range(-1, 1))) } else { None } }
     }
     fn exec(c: &Case) -> Out {
         let ns = nonce_for(c.policy, 11);
         let nr = nonce_for(c.policy, 77);
         let (sender, mut receiver) = channel_pair(c.policy, c.mode, c.sid, c.rid, c.mty != 0, c.chan_id, c.token_id, &ns, &nr);
-        let msg = message(c.mty, c.mode, &c.fill);
+        // resolve an exact-boundary request against the body room the real code computes
+        let mut fill = Fill { len: c.fill.len, a: c.fill.a, b: c.fill.b, m: c.fill.m, lo: c.fill.lo };
+        if let (Some((k, d)), true) = (c.boundary, c.max_chunk > 0) {
+            let mt = match c.mty { 0 => MessageChunkType::Message, 1 => MessageChunkType::OpenSecureChannel, _ => MessageChunkType::CloseSecureChannel };
+            if let Ok(room) = MessageChunk::body_size_from_message_size(mt, &sender, c.max_chunk) {
+                let base = message_bytes(&message(c.mty, c.mode, &Fill { len: 0, a: fill.a, b: fill.b, m: fill.m, lo: fill.lo })).len();
+                let want = (k * room) as i64 + d - base as i64;
+                if want >= 0 { fill.len = want as usize; }
+            }
+        }
+        let c_fill = &fill;
+        let msg = message(c.mty, c.mode, c_fill);
         let data = message_bytes(&msg);
-        let (prefix, suffix) = split_around_fill(&data, &c.fill);
+        let (prefix, suffix) = split_around_fill(&data, c_fill);
         let deterministic = c.policy == 0 || (c.mode == 1 && c.mty != 1);
         let mut out: Vec<i128> = Vec::new();
         let mut nchunks = 0usize;
@@ -158,10 +186,10 @@ impl Property for P {
         };
         let sigkey: Vec<u8> = if c.exact && c.policy != 0 { sender.verif_derived_keys().0.map(|k| k.0).unwrap_or_default() } else { vec![] };
         let tag = format!("{}-{}-{}-{}{}", pol_name(c.policy), mode_name(c.mode), mty_name(c.mty),
-            if c.max_chunk == 0 { "nolimit".to_string() } else { format!("{}chunks", nchunks.min(4)) }, if c.exact && deterministic { "-exact" } else { "" });
+            if c.max_chunk == 0 { "nolimit".to_string() } else { format!("{}chunks", nchunks.min(4)) }, if c.exact && deterministic { "-exact" } else if c.boundary.is_some() { "-boundary" } else { "" });
         let term = format!("(mk_case {} {} {} {} {} {} {} {} {} {} {} {} {} {} {} {})",
             pol_name(c.policy), mode_name(c.mode), mty_name(c.mty), c.max_chunk, c.chan_id, c.token_id, c.seq0, c.req_id,
-            sks, rks, certlen, zbytes(&prefix), c.fill.term(), zbytes(&suffix), zbytes(&sigkey), coq_bool(c.exact && deterministic));
+            sks, rks, certlen, zbytes(&prefix), c_fill.term(), zbytes(&suffix), zbytes(&sigkey), coq_bool(c.exact && deterministic));
         Out { tag, term, out }
     }
 }
